@@ -14,9 +14,10 @@ PID = 'C17'
 DRIVERS = ['queue']
 MODULE = 'PymtlVerif.Props.C17'
 THEOREMS = ['PV.C17.' + t for t in [
-  'ring_inv', 'ring_refines', 'class_refines', 'refines_trace',
-  'fifo_order', 'never_exceeds', 'count_exact', 'rdy_laws', 'pipe_enq_when_full', 'bypass_deq_when_empty',
-  'num_free', 'bypass2_fifo_order',
+  'ring_inv', 'ring_refines', 'one_entry_refines', 'vring_refines', 'cl_refines', 'refines_trace',
+  'nothing_lost', 'fifo_order', 'never_exceeds', 'next_out_exists', 'next_out', 'count_exact', 'rdy_laws',
+  'pipe_enq_when_full', 'bypass_deq_when_empty', 'num_free',
+  'bypass2_fifo_order', 'bypass2_count_deq', 'bypass2_enq_law_fails',
 ]]
 TRUSTED = [
   'Model/Queue.lean follows the update blocks of the five queue files (registers, wrap tests, Bits widths, reset branches) by hand',
@@ -65,7 +66,7 @@ def fmt_obs(o):
   return f"{er} {dv} {'-' if ret is None else ret} {cnt}"
 
 def model_line(op, cls, n, ins):
-  return leanio.line('queue', op, cls, n, [list(map(int, i)) for i in ins])
+  return leanio.line('queue', op, U.LEAN_CLS.get(cls, cls), n, [list(map(int, i)) for i in ins])
 
 def parse_reply(r):
   return [] if r == '.' else r.split('|')
@@ -230,7 +231,7 @@ def run(ck):
   batch = Batch(ck)
   for case in corpus(): do_case(ck, batch, case)
   batch.flush()
-  per_cfg = 6 if ck.tier == 'quick' else 110
+  per_cfg = 10 if ck.tier == "quick" else 110
   ncyc = 60
   for cls in ALL_CLASSES:
     for n in U.capacities(cls):
